@@ -680,11 +680,33 @@ func (h *ibcH) opAck(p ibcPkt) relayOut {
 	return out
 }
 
-func (h *ibcH) opTimeout(p ibcPkt) relayOut {
+// setChannelState rewrites the state of one channel end in the core IBC store (fault injection at the boundary: a channel that
+// is closed or flushing cannot carry a re-sent packet)
+func (h *ibcH) setChannelState(port, ch string, st channeltypes.State) {
+	_, _ = h.c.Call(func(ctx sdk.Context) error {
+		k := h.c.App.IBCKeeper.ChannelKeeper
+		c, found := k.GetChannel(ctx, port, ch)
+		if !found {
+			return fmt.Errorf("channel %s not found", ch)
+		}
+		c.State = st
+		k.SetChannel(ctx, port, ch, c)
+		return nil
+	})
+}
+
+func (h *ibcH) opTimeout(p ibcPkt, noSend ...bool) relayOut {
 	if _, err := h.c.NextBlock(11 * time.Minute); err != nil {
 		h.e.Obs("halt %v", err)
 	}
+	fault := len(noSend) > 0 && noSend[0]
+	if fault {
+		h.setChannelState(p.P.SourcePort, p.P.SourceChannel, channeltypes.CLOSED)
+	}
 	evs, err, pn := h.exec(channeltypes.NewMsgTimeout(p.P, 1, sentinel, h.height(), h.signer()))
+	if fault {
+		h.setChannelState(p.P.SourcePort, p.P.SourceChannel, channeltypes.OPEN)
+	}
 	out := relayOut{cls: class(err, pn)}
 	seqs := ""
 	if out.cls == "ok" {
@@ -692,6 +714,9 @@ func (h *ibcH) opTimeout(p ibcPkt) relayOut {
 		for _, s := range out.sent {
 			seqs += fmt.Sprintf("%d", s.P.Sequence)
 		}
+	}
+	if fault {
+		seqs += " send=fail"
 	}
 	h.e.In("timeout %s %d seqs=%s", p.P.SourceChannel, p.P.Sequence, seqs)
 	h.e.Oracle("no_panic", out.cls != "panic", "MsgTimeout %s", p.key())
@@ -729,6 +754,18 @@ func (h *ibcH) snapshot() map[string]sdkmath.Int {
 		}
 	}
 	return m
+}
+
+func snapEq(a, b map[string]sdkmath.Int) bool {
+	if len(a) != len(b) {
+		return false
+	}
+	for k, v := range a {
+		if w, ok := b[k]; !ok || !v.Equal(w) {
+			return false
+		}
+	}
+	return true
 }
 
 func (h *ibcH) runHistory(sc scenario) {
@@ -952,6 +989,18 @@ func (h *ibcH) runHistory(sc scenario) {
 			before := h.snapshot()
 			sender := h.nm(l.cur.Data.Sender)
 			legDenom := transfertypes.ExtractDenomFromPath(l.cur.Data.Denom).IBCDenom()
+			if retriesLeft > 0 && e.R.N(5) == 0 {
+				// the channel is closed while this timeout is delivered: the packet cannot be re-sent, the message must fail as a
+				// whole and leave everything as it was; the relayer delivers the timeout again once the channel is open
+				b0 := h.snapshot()
+				rf := h.opTimeout(l.cur, true)
+				e.Stat("leg.timeout_nosend." + rf.cls)
+				e.Oracle("failed_resend_changes_nothing", rf.cls == "err" && snapEq(b0, h.snapshot()), "%s leg=%s retries_left=%s timeout while the channel is closed: %s", feat, l.name, posClass(retriesLeft), rf.cls)
+				if rf.cls != "err" {
+					l.done = true // the leg's record is gone without an outcome: the history cannot go on
+					continue
+				}
+			}
 			r := h.opTimeout(l.cur)
 			e.Stat("leg.timeout." + r.cls)
 			after := h.snapshot()
